@@ -58,7 +58,10 @@ impl Object for Encoding {
                 }
                 Ok(Encoding { base, differences })
             }
-            Primitive::Reference(r) => Self::from_primitive(resolve.resolve(r)?, resolve),
+            Primitive::Reference(r) => match resolve.resolve(r)? {
+                Primitive::Reference(_) => bail!("Encoding: reference to a reference"),
+                p => Self::from_primitive(p, resolve),
+            },
             Primitive::Stream(s) => Self::from_primitive(Primitive::Dictionary(s.info), resolve),
             _ => bail!("Unknown element: {:?}", p),
         }
